@@ -150,6 +150,16 @@ def wsum(X, st, e):
     k = X.ev(e.args[1], st)
     kind = e.args[2].value if len(e.args) > 2 else "wait"
     f = wsum_fn(X, st, L, kind)
+    # E-matching cannot see that f(n + 2) is f((n + 1) + 1): the last two unfoldings below the queried index are given as ground facts
+    wf = [c[2] for c in X._specfn.values() if c[0] is f][0]
+    ks = z3.simplify(k.v)
+    if not z3.is_int_value(ks) and z3.is_app_of(ks, z3.Z3_OP_ADD):
+        have = {p.get_id() for p in st.pc}
+        for back in (1, 2):
+            kt = z3.simplify(ks - back)
+            inst = z3.Implies(kt >= 0, f(kt + 1) == f(kt) + wf(kt))
+            if inst.get_id() not in have:
+                st.pc.append(inst)
     return Num(f(k.v))
 
 
@@ -167,6 +177,7 @@ def wsum_fn(X, st, L, kind="wait"):
         tm, ty = st.heap["time"], st.heap["message_type"]
     key = ("wsum" + kind, el.get_id(), tm.get_id(), ty.get_id())
     cache = X.__dict__.setdefault("_specfn", {})
+    pairs = X.__dict__.setdefault("_specfn_pairs", {})
     if key not in cache:
         f = z3.Function(f"wsum{kind}{len(cache)}", I, I)
         k = z3.Int("k!ws")
@@ -175,23 +186,28 @@ def wsum_fn(X, st, L, kind="wait"):
         else:
             wf = lambda kk: z3.If(ty[el[kk]], 0, tm[el[kk]])       # ty is the is-None flag array here
         ax = [f(0) == 0, safe_forall([k], z3.Implies(k >= 0, f(k + 1) == f(k) + wf(k)), patterns=[f(k + 1)])]
+        cache[key] = (f, ax, wf)
+    f, ax, wf = cache[key]
+    have = {p.get_id() for p in st.pc}
+    if ax[1].get_id() not in have:
+        # lemma wsum_ext (instances s = 0, 1) against every wait-sum function of the same kind that this state already talks about
         n, j = z3.Int("n!ws"), z3.Int("j!ws")
         for okey, (g, gax, wg) in list(cache.items()):
-            if okey[0] != key[0]:
+            if okey[0] != key[0] or okey == key or gax[1].get_id() not in have:
                 continue
-            for (fa, wa, fb, wb) in ((g, wg, f, wf), (f, wf, g, wg)):
-                for s_ in (0, 1):
-                    hyp = safe_forall([j], z3.Implies(z3.And(0 <= j, j < n), wa(j) == wb(j + s_)))
-                    if s_ == 1:
-                        hyp = z3.And(hyp, wb(0) == 0)
-                    ax.append(safe_forall([n], z3.Implies(z3.And(n >= 0, hyp), fb(n + s_) == fa(n)), patterns=[fa(n)] if s_ == 0 else [fa(n), fb(n + 1)]))
-            X.notes.append("L: instances of lemma wsum_ext relate wait-sums across heap states")
-        cache[key] = (f, ax, wf)
-    f, ax, _ = cache[key]
-    have = {p.get_id() for p in st.pc}
-    for a in ax:
-        if a.get_id() not in have:
-            st.pc.append(a)
+            pk = (okey, key)
+            if pk not in pairs:
+                pax = []
+                for (fa, wa, fb, wb) in ((g, wg, f, wf), (f, wf, g, wg)):
+                    for s_ in (0, 1):
+                        hyp = safe_forall([j], z3.Implies(z3.And(0 <= j, j < n), wa(j) == wb(j + s_)))
+                        if s_ == 1:
+                            hyp = z3.And(hyp, wb(0) == 0)
+                        pax.append(safe_forall([n], z3.Implies(z3.And(n >= 0, hyp), fb(n + s_) == fa(n)), patterns=[fa(n)] if s_ == 0 else [fa(n), fb(n + 1)]))
+                pairs[pk] = pax
+                X.notes.append("L: instances of lemma wsum_ext relate wait-sums across heap states")
+            st.pc.extend(pairs[pk])
+        st.pc.extend(ax)
     return f
 
 
